@@ -549,7 +549,7 @@ func propSPKI(t *rapid.T) {
 		x = gen.Bytes(t, 0, 100, "rawbytes")
 	} else {
 		pc := gen.NonIdentityPoint(t, "pt")
-		payloadKind := gen.Sampled([]string{"uncompressed", "uncompressed", "compressed", "identity", "off-curve", "hybrid", "empty", "x+p"}).Draw(t, "payload")
+		payloadKind := gen.Sampled([]string{"uncompressed", "uncompressed", "compressed", "identity", "off-curve", "hybrid", "empty", "x+p", "y+p", "y+p", "x+p-compressed", "near-curve"}).Draw(t, "payload")
 		var payload []byte
 		switch payloadKind {
 		case "uncompressed":
@@ -570,6 +570,19 @@ func propSPKI(t *rapid.T) {
 			sp := gen.SmallXPoint(t, "sx").P
 			payload = sp.Uncompressed()
 			copy(payload[1:33], ref.B32(new(big.Int).Add(sp.X, ref.P)))
+		case "x+p-compressed":
+			sp := gen.SmallXPoint(t, "sx").P
+			payload = sp.Compressed()
+			copy(payload[1:33], ref.B32(new(big.Int).Add(sp.X, ref.P)))
+		case "y+p": // a point with y < 2^32+977 (found through a cube root), y field holding the alias y+p
+			sp := gen.SmallYPoint(t, "sy").P
+			payload = sp.Uncompressed()
+			if v := new(big.Int).Add(sp.Y, ref.P); v.BitLen() <= 256 {
+				copy(payload[33:65], ref.B32(v))
+			}
+		case "near-curve":
+			nx, ny, _ := gen.NearCurve(t, "nc")
+			payload = append(append([]byte{4}, ref.B32(nx)...), ref.B32(ny)...)
 		}
 		m := gen.Sampled([]string{"none", "none", "none", "unused-bits", "unused-bits", "unused-noshift", "other-curve", "other-alg",
 			"explicit-null", "swap-oids", "outer-len81", "alg-len81", "bits-len81", "oid-len81", "trail-outer", "trail-inner", "trail-alg",
